@@ -5,6 +5,8 @@ import PtVerif.Generated.ElementBase
 import PtVerif.Generated.Constants
 import PtVerif.Generated.MassTables
 import PtVerif.Generated.Density
+import PtVerif.Model.LoadersNsf
+import PtVerif.Generated.NsfTables
 /-! Driver sub-command `loader`: the table loaders (C06, C07, C20) at `Float`.
 
 Raw table text crosses the protocol hex-encoded (two digits per byte, one token), so that blanks,
@@ -47,6 +49,10 @@ structure St where
   densRows : List DensityRow := []
   mass : Option (MassState Float) := none
   dens : List (Nat × Option Float) := []
+  nsfMain : Str := []
+  nsfImag : Str := []
+  ed : List EDTable := []
+  nsf : Option (NsfState Float) := none
 
 def init : St := {}
 
@@ -121,6 +127,135 @@ def sameDens (a b : DensityRow) : Bool :=
     | some x, some y => x.same y
     | _, _ => false)
 
+
+/-! ### C07 -/
+
+def efF : Float :=
+  energyFactor PtGen.plancks_constant PtGen.electron_volt PtGen.neutron_mass PtGen.atomic_mass_constant
+
+def nsfEnv (st : St) (ms : MassState Float) : NsfEnv Float :=
+  { symOf := symOf, zOf := zOf
+    nd := fun z => ((elDerived (numberDensityVal na) (elDensity st.dens z) (elMassV ms z)).getD none)
+    hasIso := fun z a => ms.hasIsotope z a
+    ab175 := (ms.isoAbOf 71 175).map (·.1)
+    ab176 := (ms.isoAbOf 71 176).map (·.1)
+    lam0 := PtGen.absorptionWavelength.toNum
+    ef := efF }
+
+def showRec (id : Nat) (r : NRec Float) : String :=
+  let bcc := match r.bcc with
+    | none => "N N"
+    | some (re, im) => s!"{showF (re.getD (0.0 / 0.0))} {showF im}"
+  let tl := match r.table with
+    | none => "N"
+    | some t => toString t.length
+  s!"{id} {showO r.b_c} {showO r.bp} {showO r.bm} {showO r.coherent} {showO r.incoherent} {showO r.total} {showO r.absorption} {showO r.abundance} {if r.isE then 1 else 0} {bcc} {showO r.b_c_i} {showO r.bp_i} {showO r.bm_i} {if r.hasSld then 1 else 0} {tl}"
+
+def hexOfStr (s : String) : String :=
+  if s.isEmpty then "-" else
+  String.join (s.toUTF8.toList.map fun b =>
+    String.ofList [Nat.digitChar (b.toNat / 16), Nat.digitChar (b.toNat % 16)])
+
+def readDecs : Toks → Option (List Dec)
+  | [] => some []
+  | m :: e :: r => match intTok m, natTok e, readDecs r with
+    | some m, some e, some l => some (⟨m, e⟩ :: l)
+    | _, _, _ => none
+  | _ => none
+
+def triples : List Dec → List (Dec × Dec × Dec)
+  | a :: b :: c :: r => (a, b, c) :: triples r
+  | _ => []
+
+def uncValSame (a b : Unc) : Bool :=
+  match a.val (α := Rat), b.val (α := Rat) with
+  | none, none => true
+  | some x, some y => x == y
+  | _, _ => false
+
+def sameNsf (a b : NsfRow) : Bool :=
+  a.z == b.z && a.sym == b.sym && a.a == b.a && a.spin == b.spin && a.isE == b.isE
+  && (match a.p, b.p with
+      | none, none => true
+      | some x, some y => uncValSame x y
+      | _, _ => false)
+  && uncValSame a.b_c b.b_c && uncValSame a.bp b.bp && uncValSame a.bm b.bm
+  && uncValSame a.coh b.coh && uncValSame a.inc b.inc && uncValSame a.tot b.tot && uncValSame a.abs b.abs
+
+def sameNsfI (a b : NsfIRow) : Bool :=
+  a.z == b.z && a.a == b.a && uncValSame a.b_c_i b.b_c_i && uncValSame a.bp_i b.bp_i
+  && uncValSame a.bm_i b.bm_i
+
+def sameED (a b : EDTable) : Bool :=
+  a.sym == b.sym && a.a == b.a && a.rows.length == b.rows.length
+  && (a.rows.zip b.rows).all fun (x, y) => x.1.same y.1 && x.2.1.same y.2.1 && x.2.2.same y.2.2
+
+def nsfSelfcheck (st : St) : String :=
+  match mapM? parseNsfLine (lines st.nsfMain), mapM? parseNsfILine (lines st.nsfImag) with
+  | some rows, some irows =>
+    match firstDiff sameNsf 0 rows PtGen.nsfRows, firstDiff sameNsfI 0 irows PtGen.nsfIRows,
+          firstDiff sameED 0 st.ed PtGen.edTables with
+    | none, none, none => s!"ok {rows.length + irows.length + st.ed.length}"
+    | some i, _, _ => s!"MISMATCH nsftable row {i}"
+    | _, some i, _ => s!"MISMATCH nsftableI row {i}"
+    | _, _, some i => s!"MISMATCH ENERGY_DEPENDENT_TABLES entry {i}"
+  | _, _ => "MISMATCH model-cannot-parse"
+
+def handleNsf (st : St) : Toks → IO (Option St)
+  | ["nsf_main", h] => match unhex h with
+    | some t => pure (some { st with nsfMain := t })
+    | none => do reply "ERR bad-hex"; pure (some st)
+  | ["nsf_imag", h] => match unhex h with
+    | some t => pure (some { st with nsfImag := t })
+    | none => do reply "ERR bad-hex"; pure (some st)
+  | ["ed_clear"] => pure (some { st with ed := [] })
+  | "ed" :: s :: a :: rest =>
+    match unhex s, natTok a, readDecs rest with
+    | some s, some a, some ds => pure (some { st with ed := st.ed ++ [⟨symCode s, a, triples ds⟩] })
+    | _, _, _ => do reply "ERR bad-op"; pure (some st)
+  | ["nsf_load"] =>
+    match st.mass with
+    | none => do reply "ERR mass-not-loaded"; pure (some st)
+    | some ms =>
+      match Nsf.loadText (nsfEnv st ms) st.nsfMain st.nsfImag st.ed with
+      | some ns => do reply "ok"; pure (some { st with nsf := some ns })
+      | none => do reply "ERR"; pure (some { st with nsf := none })
+  | ["n_el", z] => do
+    match st.nsf, natTok z with
+    | some ns, some z => reply (showRec (ns.elId z) (ns.elNeutron z))
+    | _, _ => reply "ERR not-loaded"
+    pure (some st)
+  | ["n_iso", z, a] => do
+    match st.nsf, st.mass, natTok z, natTok a with
+    | some ns, some ms, some z, some a =>
+      if !(ms.hasIsotope z a || ns.isotopes.contains (z, a)) then reply "0" else
+      let spin := match aget (z, a) ns.spin with
+        | some s => hexOfStr s
+        | none => "X"
+      reply s!"1 {showRec (ns.isoId z a) (ns.isoNeutron z a)} {spin}"
+    | _, _, _, _ => reply "ERR not-loaded"
+    pure (some st)
+  | ["n_table", z, a] => do
+    match st.nsf, natTok z, natTok a with
+    | some ns, some z, some a =>
+      let r := if a == 0 then ns.elNeutron z else ns.isoNeutron z a
+      match r.table with
+      | none => reply "N"
+      | some t => reply (" ".intercalate (t.map fun p => s!"{showF p.1} {showF p.2.1} {showF p.2.2}"))
+    | _, _, _ => reply "ERR not-loaded"
+    pure (some st)
+  | ["n_at", z, a, lam] => do
+    match st.nsf, natTok z, natTok a, readF lam with
+    | some ns, some z, some a, some lam =>
+      let r := if a == 0 then ns.elNeutron z else ns.isoNeutron z a
+      match r.bcAt lam with
+      | some c => reply s!"{showF c.1} {showF c.2}"
+      | none => reply "N"
+    | _, _, _, _ => reply "ERR not-loaded"
+    pure (some st)
+  | ["nsf_selfcheck"] => do reply (nsfSelfcheck st); pure (some st)
+  | _ => pure none
+
 def handle (st : St) : Toks → IO St
   | ["mass_iso", h] => match unhex h with
     | some t => pure { st with isoText := t }
@@ -182,6 +317,9 @@ def handle (st : St) : Toks → IO St
         | none => reply "N N"
         | some (v, d) => reply s!"{showF v} {showF d}"
     pure st
-  | _ => do reply "ERR bad-op"; pure st
+  | toks => do
+    match ← handleNsf st toks with
+    | some st' => pure st'
+    | none => do reply "ERR bad-op"; pure st
 
 end Driver.LoaderCmd
